@@ -51,6 +51,14 @@ def _eval(test, row, sub):
     return ev(t)
 
 
+def _predicate_like(fi):
+    """the function returns True somewhere (its result is a verdict): then False, None and a bare return all mean `no`"""
+    if fi.name.lstrip('_').startswith(('is_', 'valid', 'can_', 'check_')):
+        return True
+    return any(isinstance(n, ast.Return) and isinstance(n.value, ast.Constant) and n.value.value is True for n in own_nodes(fi.node)) or \
+        any(isinstance(n, ast.Return) and isinstance(n.value, ast.Constant) and n.value.value is False for n in own_nodes(fi.node))
+
+
 def refusal_nodes(fi):
     """{class name: [statement nodes]} -- raises by exception class, plus 'return False'"""
     out = {}
@@ -63,12 +71,62 @@ def refusal_nodes(fi):
             if name[:1].islower():
                 name = '<dynamic>'
             out.setdefault(name, []).append(n)
-        if isinstance(n, ast.Return) and isinstance(n.value, ast.Constant) and n.value.value is False:
-            out.setdefault('return False', []).append(n)
+        if isinstance(n, ast.Return) and (n.value is None or (isinstance(n.value, ast.Constant) and n.value.value in (False, None))) \
+                and _predicate_like(fi):
+            out.setdefault('return False', []).append(n)      # False / None / bare return: the callers test truthiness
     return out
 
 
-def predicate(fi, nodes):
+_NN = {}
+
+
+def never_none(index, fi, depth=0):
+    """every normal return of the function carries a value that is not None: a non-None literal, a container display, or the
+    result of a call of functions with the same property; and control cannot fall off the end"""
+    k = fi.qualname
+    if k in _NN:
+        return _NN[k]
+    _NN[k] = False            # recursion guard
+    from .rules.pat import inline_locals
+    body = fi.node.body
+    rets = [n for n in own_nodes(fi.node) if isinstance(n, ast.Return)]
+    last = body[-1] if body else None
+    ends = isinstance(last, (ast.Return, ast.Raise)) or (isinstance(last, ast.Try) and all(
+        isinstance(b[-1], (ast.Return, ast.Raise)) for b in [last.body] + [h.body for h in last.handlers] if b))
+    ok = bool(rets) and ends and depth < 4
+    for r in rets if ok else ():
+        v = inline_locals(r.value, fi.node) if r.value is not None else None
+        if v is None or (isinstance(v, ast.Constant) and v.value is None):
+            ok = False
+        elif isinstance(v, (ast.Dict, ast.List, ast.Tuple, ast.Set, ast.JoinedStr)) or (isinstance(v, ast.Constant)):
+            continue
+        elif isinstance(v, ast.Call):
+            if not call_never_none(index, fi, v, depth + 1):
+                ok = False
+        else:
+            ok = False
+        if not ok:
+            break
+    _NN[k] = ok
+    return ok
+
+
+def call_never_none(index, fi, call, depth=0):
+    f = call.func
+    cands = []
+    if isinstance(f, ast.Name):
+        t = fi.module.functions.get(f.id) or index.resolve_function_name(fi.module, f.id)
+        if t is not None:
+            cands = [t]
+    elif isinstance(f, ast.Attribute) and norm(f.value) not in ('self', 'cls'):
+        # a function of a dynamically chosen module (lib.find): every module-level function of that name
+        cands = [m.functions[f.attr] for m in index.modules.values() if f.attr in m.functions and m.functions[f.attr].cls is None]
+    if not cands:
+        return False
+    return all(never_none(index, t, depth) for t in cands)
+
+
+def predicate(fi, nodes, index=None):
     """-> (atoms, rows) or None when there are too many atoms.  For every assignment of truth values to the atoms, the
     statement is reached iff a walk from the function entry that takes, at every test, the edge the assignment selects
     (and every edge at loops / handlers) arrives at one of `nodes`."""
@@ -122,30 +180,89 @@ def predicate(fi, nodes):
             atoms.add(_canon_atom(a)[0])
     # a statement of a try body that can hand control to a handler of this function: whether it raises is an atom of its own
     raisers = {}
+    OPERATOR_EXC = ('IndexError', 'KeyError', 'ValueError', 'TypeError', 'AttributeError', 'LookupError', 'ArithmeticError',
+                    'ZeroDivisionError', 'Exception', 'BaseException', 'UnboundLocalError', 'NameError', 'AssertionError')
+
+    def can_raise_into(nid, hid):
+        # a handler for library / I/O exceptions is only entered from statements that call something; handlers for the
+        # exceptions that operators raise (subscripts, attribute access, arithmetic) from any statement
+        h = g.nodes[hid].ast
+        names = None
+        if isinstance(h, ast.ExceptHandler) and h.type is not None:
+            t = h.type.elts if isinstance(h.type, ast.Tuple) else [h.type]
+            names = [norm(x).split('.')[-1] for x in t]
+        if names is None or any(x in OPERATOR_EXC for x in names):
+            return True
+        return any(isinstance(x, (ast.Call, ast.Raise)) for x in ast.walk(g.nodes[nid].ast))
     for nid in back:
         nd = g.nodes[nid]
-        if nd.kind == 'stmt' and nd.ast is not None and any(lab == 'exc' and g.nodes[d].kind == 'handler' and d in back
-                                                            for d, lab in g.succ[nid]):
-            raisers[nid] = 'raises: ' + ' '.join(norm(sub(nd.ast.value) if isinstance(nd.ast, ast.Expr) else nd.ast).split())[:90]
+        if nd.kind == 'stmt' and nd.ast is not None and any(lab == 'exc' and g.nodes[d].kind == 'handler' and d in back and
+                                                            can_raise_into(nid, d) for d, lab in g.succ[nid]):
+            from .rules.c12 import sig_of as _sig
+            raisers[nid] = 'raises: ' + _sig(nd.ast)
     atoms |= set(raisers.values())
+    # `E is None` where E is the result of a call that never returns None cannot hold: the atom is fixed to False
+    forced = {}
+    if index is not None:
+        for a in list(atoms):
+            try:
+                e = ast.parse(a, mode='eval').body
+            except SyntaxError:
+                continue
+            if isinstance(e, ast.Compare) and len(e.ops) == 1 and isinstance(e.ops[0], ast.Is) and \
+                    isinstance(e.comparators[0], ast.Constant) and e.comparators[0].value is None and \
+                    isinstance(e.left, ast.Call) and call_never_none(index, fi, e.left):
+                forced[a] = False
+                atoms.discard(a)
+    # a test `x is None` placed right after `x = <call that never returns None>` is false at that point
+    local_false = {}
+    if index is not None:
+        for nid in tests:
+            preds = [p_ for p_, lab in g.pred[nid] if lab != 'exc']
+            if len(preds) != 1:
+                continue
+            pa = g.nodes[preds[0]].ast
+            if g.nodes[preds[0]].kind == 'stmt' and isinstance(pa, ast.Assign) and len(pa.targets) == 1 and \
+                    isinstance(pa.targets[0], ast.Name) and isinstance(pa.value, ast.Call) and \
+                    call_never_none(index, fi, pa.value):
+                local_false[nid] = '%s is None' % pa.targets[0].id
     atoms = sorted(atoms)
     if len(atoms) > MAX_ATOMS:
         return None
     rows = set()
     for vals in itertools.product((False, True), repeat=len(atoms)):
         row = dict(zip(atoms, vals))
-        seen = {ENTRY}
-        work = [ENTRY]
+        row.update(forced)
+        seen = {(ENTRY, frozenset())}
+        work = [(ENTRY, frozenset())]
         hit = ENTRY in targets
         while work and not hit:
-            k = work.pop()
+            k, empty = work.pop()
             nd = g.nodes[k]
             choose = None
             if nd.kind == 'test' and k in back:
-                choose = 'true' if _eval(nd.ast, row, sub) else 'false'
+                if k in local_false and local_false[k] in row:
+                    r2 = dict(row)
+                    r2[local_false[k]] = False
+                    choose = 'true' if _eval(nd.ast, r2, sub) else 'false'
+                else:
+                    choose = 'true' if _eval(nd.ast, row, sub) else 'false'
             raising = row[raisers[k]] if k in raisers else None
+            # locals known to hold the empty list literal on this walk: a loop over one of them does not iterate
+            a_ = nd.ast
+            if nd.kind == 'stmt' and isinstance(a_, ast.Assign) and len(a_.targets) == 1 and isinstance(a_.targets[0], ast.Name):
+                if isinstance(a_.value, (ast.List, ast.Tuple)) and not a_.value.elts:
+                    empty = empty | {a_.targets[0].id}
+                else:
+                    empty = empty - {a_.targets[0].id}
+            elif nd.kind == 'stmt' and a_ is not None and empty:
+                touched = {x.id for x in ast.walk(a_) if isinstance(x, ast.Name)}
+                empty = empty - touched if not isinstance(a_, ast.For) else empty
+            dead_loop = isinstance(a_, ast.For) and isinstance(a_.iter, ast.Name) and a_.iter.id in empty
             for d, lab in g.succ[k]:
-                if d not in back or d in seen:
+                if d not in back or (d, empty) in seen:
+                    continue
+                if dead_loop and lab == 'iter':
                     continue
                 if choose is not None and lab in ('true', 'false') and lab != choose:
                     continue
@@ -160,8 +277,8 @@ def predicate(fi, nodes):
                 if d in targets:
                     hit = True
                     break
-                seen.add(d)
-                work.append(d)
+                seen.add((d, empty))
+                work.append((d, empty))
         if hit:
             rows.add(vals)
     return atoms, rows
@@ -177,7 +294,7 @@ def extract(index, modules=('core', 'parser', 'validation', '__init__', 'base_da
         for cls, nodes in sorted(rn.items()):
             if cls in ('<re-raise>', '<dynamic>', 'NotImplementedError', 'AttributeError'):
                 continue
-            pr = predicate(fi, nodes)
+            pr = predicate(fi, nodes, index)
             if pr is None:
                 out.setdefault(fq, {})[cls] = None
                 continue
@@ -242,6 +359,8 @@ def compare(ref, cur, cap=300000):
     an `other` value), so `len(x) >= 1` and `len(x) > 1`, or `v == 4` and `v == 5`, are compared by meaning.  Opaque atoms
     that exist on one side only are quantified; opaque atoms changed on both sides make the tables incomparable (note)."""
     ra, ca = ref['atoms'], cur['atoms']
+    if ra == ca and ref['rows'] == cur['rows']:
+        return [], [], ''                      # identical tables: nothing to enumerate
     cls = {a: _classify(a) for a in set(ra) | set(ca)}
     numvars, symvars = {}, {}
     for a, k in cls.items():
@@ -250,6 +369,11 @@ def compare(ref, cur, cap=300000):
         if k[0] == 'sym':
             symvars.setdefault(k[1], set()).update(k[3])
     opaque = lambda a: cls[a][0] == 'bool' or (cls[a][0] == 'truth' and cls[a][1] not in symvars and cls[a][1] not in numvars)
+    vars_of = lambda atoms: {cls[a][1] for a in atoms if cls[a][0] in ('num', 'sym')}
+    v_ref, v_cur = vars_of(ra), vars_of(ca)
+    if (v_ref - v_cur) and (v_cur - v_ref):
+        return None, None, 'compared expressions renamed / rewritten: reference-only %s, current-only %s' % (
+            sorted(v_ref - v_cur)[:3], sorted(v_cur - v_ref)[:3])
     only_ref = [a for a in ra if a not in ca and opaque(a)]
     only_cur = [a for a in ca if a not in ra and opaque(a)]
     if only_ref and only_cur:
@@ -298,3 +422,119 @@ def compare(ref, cur, cap=300000):
                 desc.update({'%s = %r' % (v, x): True for (_, v), x in val.items()})
                 (lost if r_ref else gained).append(desc)
     return lost, gained, ''
+
+
+# ------------------------------------------------------------------------------------------------------------------
+# decision tables: every effect statement of a function, by signature, with the predicate under which it runs
+
+def _ret_sig(v):
+    if v is None:
+        return 'return <falsy>'
+    if isinstance(v, ast.Constant):
+        return 'return <falsy>' if v.value in (False, None) else 'return %r' % (v.value,)
+    if isinstance(v, ast.Tuple):
+        return 'return (%s)' % ', '.join(_ret_sig(e)[7:] for e in v.elts)
+    if isinstance(v, ast.Call):
+        from .rules.c12 import _call_name
+        return 'return ' + _call_name(v)
+    if isinstance(v, ast.Name):
+        return 'return <name>'
+    return 'return <expr>'
+
+
+def event_nodes(fi):
+    """{signature: [statement nodes]} for the effect statements of the function: stores to attributes / items, calls,
+    deletions, raises and returns (by kind of value).  Signatures abstract local names and argument spelling (rules/c12.sig_of)."""
+    from .rules.c12 import sig_of
+    out = {}
+    for n in own_nodes(fi.node):
+        sig = None
+        if isinstance(n, ast.Raise):
+            if n.exc is None:
+                continue          # bare re-raise: a handler that only re-raises changes nothing
+            exc = n.exc.func if isinstance(n.exc, ast.Call) else n.exc
+            sig = 'raise ' + norm(exc).split('.')[-1]
+        elif isinstance(n, ast.Return):
+            sig = _ret_sig(n.value)
+        elif isinstance(n, (ast.Assign, ast.AugAssign)):
+            sig = sig_of(n)
+            if sig == 'assign':
+                continue          # a local computed without a call: no effect of its own
+            if sig.startswith('call _.') or (sig.startswith('call ') and sig[5:].split('(')[0] in BUILTIN_PURE):
+                continue          # a local computed from a method of another local / a pure builtin (text.split(..), len(..))
+        elif isinstance(n, ast.Expr) and isinstance(n.value, ast.Call):
+            sig = sig_of(n)
+        elif isinstance(n, ast.Delete):
+            sig = sig_of(n)
+        elif isinstance(n, (ast.Break, ast.Continue)):
+            sig = type(n).__name__.lower()
+        if sig:
+            out.setdefault(sig, []).append(n)
+    return out
+
+
+SKIP_FUNCS = ('__repr__', '__str__', '_sort_highlights')
+BUILTIN_PURE = ('len', 'int', 'str', 'list', 'tuple', 'dict', 'set', 'sorted', 'reversed', 'enumerate', 'zip', 'min', 'max', 'sum',
+                'isinstance', 'getattr', 'hasattr', 'repr', 'format', 'bool', 'float', 'range', 'xrange', 'iter', 'next', 'type')
+
+
+def extract_events(index, modules=('core', 'parser', 'validation', '__init__', 'base_datatypes', 'utils', 'factories', 'mllp')):
+    out = {}
+    for fq, fi in sorted(index.functions.items()):
+        mn = fi.module.name
+        if mn not in modules and not mn.endswith('base_datatypes'):
+            continue
+        if fi.name in SKIP_FUNCS:
+            continue
+        ev = event_nodes(fi)
+        for sig, nodes in sorted(ev.items()):
+            pr = predicate(fi, nodes, index)
+            if pr is None:
+                out.setdefault(fq, {})[sig] = None
+                continue
+            atoms, rows = pr
+            out.setdefault(fq, {})[sig] = {'atoms': atoms, 'n': len(nodes),
+                                           'rows': sorted(sum((1 << i) for i, b in enumerate(r) if b) for r in rows),
+                                           'argc': _argc(nodes), 'consts': _consts(nodes)}
+    return out
+
+
+def _argc(nodes):
+    """sorted numbers of arguments (positional + keyword) of the calls made by the statements: converting positional to keyword
+    arguments keeps them, dropping an argument does not"""
+    out = []
+    for n in nodes:
+        for x in ast.walk(n):
+            if not isinstance(x, ast.Call):
+                continue
+            if any(isinstance(a, ast.Starred) for a in x.args) or any(k.arg is None for k in x.keywords):
+                return None       # *args / **kwargs: the number of arguments is not visible
+            f = x.func
+            direct = (isinstance(f, ast.Name) and (f.id[:1].isupper() or f.id.startswith(('parse_', '_', 'load_', 'find_', 'get_', 'check_',
+                                                                                             'is_', 'datatype_')))) or \
+                (isinstance(f, ast.Attribute) and (norm(f.value) in ('self', 'cls') or norm(f.value).startswith('super(') or
+                                                   (isinstance(f.value, ast.Name) and f.value.id[:1].isupper())))
+            if direct and not (isinstance(f, ast.Name) and f.id in BUILTIN_PURE):
+                out.append(len(x.args) + len(x.keywords))
+    return sorted(out)
+
+
+def _consts(nodes):
+    """sorted integer constants used as subscripts, slice bounds or call arguments in the statements (positions in tuples,
+    strings and lists: `reference[2]`, `text[:3]`, `fields[11]`)"""
+    out = []
+    for n in nodes:
+        for x in ast.walk(n):
+            if isinstance(x, ast.Subscript):
+                for y in ast.walk(x.slice):
+                    if isinstance(y, ast.Constant) and isinstance(y.value, int) and not isinstance(y.value, bool):
+                        out.append(y.value)
+            if isinstance(x, ast.Call):
+                for a in list(x.args) + [k.value for k in x.keywords]:
+                    if isinstance(a, ast.Constant) and isinstance(a.value, int) and not isinstance(a.value, bool):
+                        out.append(a.value)
+                    if isinstance(a, ast.UnaryOp) and isinstance(a.op, ast.USub) and isinstance(a.operand, ast.Constant) and \
+                            isinstance(a.operand.value, int):
+                        out.append(-a.operand.value)
+    return sorted(out)
+
